@@ -66,6 +66,7 @@ type VerifOp struct {
 	Slot     string        `json:"slot,omitempty"`   // hold / stale: dataset handle; keep / cont: continuation
 	Method   string        `json:"method,omitempty"` // http: DELETE | POST | PATCH on /datasets/<seg>
 	Seg      string        `json:"seg,omitempty"`    // http: the path segment as the client sends it (escaped)
+	Ctx      bool          `json:"ctx,omitempty"`    // get / related / keep: read through a contextual store (what a transform's FindById / Query use)
 	Kind     string        `json:"kind,omitempty"`   // create / crash create: "" | proxy | virtual (remote / transform are never contacted)
 }
 
@@ -275,6 +276,10 @@ func verifDoOp(h *verifHub, op VerifOp, idx int, times map[int]int64, tokens map
 		}
 	}()
 	store := h.store
+	if op.Ctx {
+		// Scheduler.parseTransform hands every transform its own server.NewContextualStore(store)
+		store = NewContextualStore(h.store)
+	}
 	switch op.Op {
 	case "create":
 		if _, err := h.dsm.CreateDataset(op.Ds, verifCreateCfg(op.Public, op.Kind)); err != nil {
